@@ -48,8 +48,8 @@ structure DAcc where
     (Firefox: 1357, or a derived `min:`) leaves no room behind a padded Initial packet. (The fixed-layout probe panic
     is fixed by 059c38c and no longer listed.) -/
 def panicKnown (base der faults stls cls : String) : String :=
-  if cls == "index" && stls == "hrr" && faults ≠ "-" &&
-     (base.startsWith "F116" || (derTokens der).any (·.startsWith "min:")) then "initial_coalesced_behind_padding" else "-"
+  -- the coalesced-behind-padding panic is repaired in /repo (9faccbf): no crash is a listed finding any more
+  "-"
 
 /-- the wire-trace facts about the client's Initial CRYPTO stream(s) of a dial: monitor + prediction.
     A stream offset never carries two different bytes; when the dial succeeded the stream has no hole. -/
